@@ -189,7 +189,61 @@ func indexedTxn(p *prng.R, g *gen.G, s *tspace.Schema, db *ref.DB) []ref.Op {
 			return nil
 		}
 	}
-	switch p.Intn(6) {
+	pat := p.Intn(6)
+	if len(t.Indexes) >= 2 && len(us) >= 2 && p.Chance(1, 2) {
+		// two indexes: a row is removed and another row (new or existing) takes over its
+		// value on one index while its value on the OTHER index collides with an untouched
+		// row (must be rejected) or is fresh (must be accepted)
+		i1 := p.Intn(len(t.Indexes))
+		i2 := (i1 + 1 + p.Intn(len(t.Indexes)-1)) % len(t.Indexes)
+		for _, ix := range [][]string{t.Indexes[i1], t.Indexes[i2]} {
+			for _, cn := range ix {
+				if t.Col(cn).Immutable {
+					return nil
+				}
+			}
+		}
+		c := b
+		row := ref.Row{}
+		for _, cn := range t.Indexes[i1] {
+			row[cn] = db.T[t.Name][a][cn]
+		}
+		collide := p.Bool()
+		for _, cn := range t.Indexes[i2] {
+			if _, set := row[cn]; set {
+				continue // column shared by both indexes
+			}
+			if collide {
+				row[cn] = db.T[t.Name][c][cn]
+			} else {
+				row[cn] = g.Value(t.Col(cn), db, nil)
+				if cn == "name" {
+					row[cn] = g.Name()
+				}
+			}
+		}
+		del := ref.Op{Kind: "delete", Table: t.Name, Where: byUUID(a)}
+		var take ref.Op
+		if len(us) >= 3 && p.Bool() {
+			take = ref.Op{Kind: "update", Table: t.Name, Where: byUUID(us[perm[2]]), Row: row}
+		} else {
+			full := db.T[t.Name][a].Clone()
+			for _, col := range t.Cols {
+				if col.Key.IsRef() || (col.Val != nil && col.Val.IsRef()) {
+					delete(full, col.Name)
+				}
+			}
+			for cn, d := range row {
+				full[cn] = d
+			}
+			take = ref.Op{Kind: "insert", Table: t.Name, UUID: p.UUID(), Row: full}
+		}
+		if p.Bool() {
+			return []ref.Op{take, del}
+		}
+		return []ref.Op{del, take}
+	}
+	switch pat {
 	case 0: // swap
 		return []ref.Op{{Kind: "update", Table: t.Name, Where: byUUID(a), Row: vals(b)}, {Kind: "update", Table: t.Name, Where: byUUID(b), Row: vals(a)}}
 	case 1: // rotation among three
